@@ -2621,7 +2621,15 @@ RULE = (
     "x 3 localization_variance x 2 variance-of-it exhaustively, random tracks with 4-6 requests, and GLS fits on tracks of 3-7 points "
     "without missing frames (exact Gauss-Jordan elimination in the model, state rounded to doubles, 1e-5 relative). Where a sign / floor / "
     "stop criterion the code branches on is decided by the last bits of a double the model answers `tie` and nothing is compared "
-    "(counted in lag_search_as_run_by_the_model). Non-trivial: a track case with >=3 points, a numeric estimate and at least one "
+    "(counted in lag_search_as_run_by_the_model). Strengthening round H - inputs of the anchored functions that tracks of one blur-calibrated "
+    "kymograph never reach: determine_optimal_points called with an iteration budget max_iterations in {1, 2, 3, one of 4..8, 100} (the budget "
+    "exhausted returns the last optimal_points pair; budget 0 = the starting guess is not asserted) and, every fifth case, with float64 frame "
+    "indices (TypeError) on short arbitrary tracks and 20-40 (thorough -100) point noisy ones (optk); the dispatcher on kymographs the LIBRARY "
+    "makes without a motion blur constant (_kymo_from_array as returned; downsampled_by(position_factor=2)) or integrated over disjoint time "
+    "windows (downsampled_by(time_factor=2)): 4 tracks x kinds x 4 methods x 2 max_lag x 3 localization_variance x 2 variances + random tracks "
+    "(cve there = the closed-form D, nan errors; a localisation variance is refused; disjoint: NotImplementedError); groups of 2-8 (thorough -30) "
+    "tracks from 2-3 kymographs that differ in line time / pixel size / both / blur constant: ensemble cve = length-weighted mean and eq. 57 "
+    "variance of the per-track closed forms, each with its own line time (ensmix). Non-trivial: a track case with >=3 points, a numeric estimate and at least one "
     "metamorphic variant; an ensemble with >=2 tracks and a numeric answer; a malformed case that raises."
 )
 TRUSTED = [
@@ -2650,8 +2658,12 @@ ASSUMPTIONS = [
     "number of points; with missing frames the two differ on the unchanged library, which warns on both paths that the automatic "
     "number of lags is then unreliable: observation, corpus auto_lags_missing_frames_observation; not asserted either when a "
     "least-squares line through leading MSD points has an exactly zero slope/intercept, i.e. a sign the heuristic branches on is rounding noise), "
-    "GLS under position scaling (absolute tolerance 1e-4 in the iteration), blur = nan kymographs, groups mixing kymographs with "
-    "different line times, recovery of D on simulated Brownian tracks (statistical, 5-sigma band on the group the simulation "
+    "GLS under position scaling (absolute tolerance 1e-4 in the iteration), ensemble OLS / ensemble MSD of groups mixing kymographs "
+    "(refused by the library), recovery of D on simulated Brownian tracks (statistical, 5-sigma band on the group the simulation "
     "returned; that the returned tracks carry the simulated line time is checked exactly, for sessions of several simulations)",
+    "strengthening round H: KymoKind (blur R / no blur constant / disjoint) and the iteration budget + storage check of determine_optimal_points are "
+    "model parameters (detOptIter, estimateOnKymo, ensembleCveMixed); theorems det_opt_iter_default/_float, estimate_on_kymo_disjoint, "
+    "estimate_on_kymo_noblur_value (the value without a blur constant is the D of _cve for EVERY admissible blur constant); the weighted mean of a "
+    "mixed group is tied and judged by the oracle, not proved; its localisation variance (nan by documentation) is not compared",
     "cve_scale needs a != 0; ols_normal_equations/ols_minimises need a non-degenerate design (K*sum(l^2) != (sum l)^2, i.e. >= 2 distinct lags)",
 ]
